@@ -3,12 +3,12 @@
 markdown table (stdout)"""
 import re, json, glob, os
 rows = {}
-files = sorted(glob.glob('/root/scratch/lane_a?.out')) + sorted(glob.glob('/root/scratch/final_*.out')) + sorted(glob.glob('/root/scratch/r2lane_a?.out')) + sorted(glob.glob('/root/scratch/r2final_*.out'))
+files = sorted(glob.glob('/root/scratch/lane_a?.out')) + sorted(glob.glob('/root/scratch/final_*.out')) + sorted(glob.glob('/root/scratch/r2lane_a?.out')) + sorted(glob.glob('/root/scratch/r2final_*.out')) + sorted(glob.glob('/root/scratch/r3lane_a?.out')) + sorted(glob.glob('/root/scratch/r3final_*.out'))
 for f in files:
     for l in open(f):
-        m = re.match(r"/root/mutants(2?)/(C\d\d)/(m\d) (C\d\d) exit=(\d+) (\d+)s ::\s*(.*)", l.strip())
+        m = re.match(r"/root/mutants([23]?)/(C\d\d)/(m\d) (C\d\d) exit=(\d+) (\d+)s ::\s*(.*)", l.strip())
         if not m: continue
-        mid = m.group(2) + ('-r2' if m.group(1) else '-') + m.group(3)
+        mid = m.group(2) + ('-r%s' % m.group(1) if m.group(1) else '-') + m.group(3)
         m = re.match(r"()(\S+) (C\d\d) exit=(\d+) (\d+)s ::\s*(.*)", l.strip())
         viol = m.group(6)
         h = re.search(r"violated: (\S+) :: (.*?)(?: \(release|$)", viol)
